@@ -68,7 +68,7 @@ fn dispatch(f: &[&str]) -> String {
         return "BADCASE".into();
     }
     match f[0] {
-        "pv" | "pi" | "pr" | "io" | "st" | "ps" | "is" => ops_parse::run(f),
+        "pv" | "pi" | "pr" | "rf" | "io" | "st" | "ps" | "is" => ops_parse::run(f),
         "se" | "sv" | "wf" => ops_ser::run(f),
         "pt" | "tv" | "fv" | "rt" => ops_typed::run(f),
         _ => ops_misc::run(f),
